@@ -494,6 +494,14 @@ def run_case(case, ctx):
                 sel_ids = [short(i) for i in sel_ids]
                 tags.append("sel-abbreviated")
             sps = [plain(j.statepoint()) for j in jobs]
+            # the same call spelled `signac view -p PREFIX [PATH] [-j IDS]` (argument parsing and glue), where it can be
+            via_cli = (zlib.crc32(json.dumps(op, sort_keys=True, default=str).encode()) % 5 == 0
+                       and (path is None or (isinstance(path, str) and path and not path.startswith("-")))
+                       and (sel_ids is None or len(sel_ids) > 0))
+            if via_cli:
+                tags.append("via-signac-view-command-line")
+                if path is None:
+                    path = "{{auto}}"      # what the command passes when no path is given
             prior = snapshot(view, ws)
             line = ["view", spec_token(path), "J%d" % len(jobs)]
             for jid, sp in zip(job_ids, sps):
@@ -504,7 +512,10 @@ def run_case(case, ctx):
             exc = None
             try:
                 with sandboxed(d):
-                    project.create_linked_view(prefix=view, job_ids=sel_ids, path=path)
+                    if via_cli:
+                        cli_view(d, view, sel_ids, path)
+                    else:
+                        project.create_linked_view(prefix=view, job_ids=sel_ids, path=path)
             except Exception as e:  # noqa
                 exc = e
             post = snapshot(view, ws)
@@ -607,6 +618,49 @@ def run_case(case, ctx):
         ctx.cleanup(base)
     key = json.dumps(keyparts, sort_keys=True, default=str) if keyparts else None
     return {"model": model, "impl": impl, "oracle": oracle, "tags": sorted(set(tags)), "key": key}
+
+
+def cli_view(d, view, sel_ids, path):
+    """`signac view -p PREFIX [PATH] [-j IDS]` in-process from the project directory; the exception
+    create_linked_view raised (the command prints it and exits 1) is recorded by a spy and re-raised."""
+    import contextlib
+    import io
+    import sys
+
+    import signac
+    import signac.__main__ as M
+
+    seen = []
+    orig = signac.Project.create_linked_view
+
+    def spy(self, *a, **k):
+        try:
+            return orig(self, *a, **k)
+        except Exception as e:  # noqa: BLE001
+            seen.append(e)
+            raise
+    argv = ["signac", "view", "-p", view] + ([path] if path != "{{auto}}" else []) + (["-j"] + list(sel_ids) if sel_ids else [])
+    old_argv, old_cwd = sys.argv, os.getcwd()
+    code = 0
+    err = io.StringIO()
+    signac.Project.create_linked_view = spy
+    try:
+        os.chdir(d)
+        sys.argv = argv
+        with contextlib.redirect_stdout(io.StringIO()), contextlib.redirect_stderr(err):
+            try:
+                M.main()
+            except SystemExit as e:
+                code = e.code if isinstance(e.code, int) else (0 if e.code is None else 1)
+    finally:
+        sys.argv = old_argv
+        os.chdir(old_cwd)
+        signac.Project.create_linked_view = orig
+    if seen:
+        raise seen[-1]
+    if code != 0:
+        raise OSError("signac view exited with %r without an exception from create_linked_view: %s" % (
+            code, err.getvalue().strip()[-300:]))
 
 
 def core_shutil_rmtree(p):
